@@ -133,6 +133,17 @@ def random_cfg(rnd, mods):
     exc = rnd.random() < 0.5
     skind = rnd.choice(["named", "named", "sub"])
     okind = rnd.choice(["named", "named", "sub"])
+    if rnd.random() < 0.08:
+        # the subject lies inside an excepted object: 'X should not import anything except its package P'
+        from ..refmodel.names import ancestors as _anc
+
+        deep = [m for m in mods if m.count(".") >= 2]
+        if deep:
+            x = rnd.choice(deep)
+            p = rnd.choice([a for a in _anc(x) if a != "r"] or [x.rsplit(".", 1)[0]])
+            extra = [m for m in mods if m != "r" and not related(m, x) and not related(m, p)]
+            objs = [p] + (rnd.sample(extra, 1) if extra and rnd.random() < 0.4 else [])
+            return {"verb": rnd.choice(["should", "should_not"]), "dir": d, "exc": True, "subs": [("named", x)], "objs": [("named", o) for o in objs], "anything": False}
     subs = pick_unrelated(rnd, mods, rnd.randint(1, 3), kind=skind)
     if not subs:
         return None
